@@ -336,9 +336,12 @@ def gen_long(rng: random.Random, tier: str) -> dict:
         n = 12  # (a product of n operands denotes 2^n terms)
     chain = sep.join(f"x{i}" for i in range(n))
     tpl = rng.choice(["{c} z", "y ~ {c}", "y ~ offset ({c})", "{c} | w", "z {c}", "({c}) w", "{c}", "y ~ {c} ~ z", "f({c}) g", "{p}a{q}", "{p}a b{q}",
-                      "(a+b){e} c", "[ y ~ {c} ] ~ z", "{c} )", "( {c}", "`{c}` + `{c}", "{{{c}}} u"])
+                      "(a+b){e} c", "[ y ~ {c} ] ~ z", "{c} )", "( {c}", "`{c}` + `{c}", "{{{c}}} u",
+                      # valid Python the interpreter itself cannot re-format: an integer literal beyond the conversion limit; deep calls
+                      "f(0x{h}) + a", "{{ {d} }}", "f(a{m})", "g({u}a) u"])
     depth = rng.choice([200, 600, 1500])
-    s = tpl.format(c=chain, p="(" * depth, q=")" * depth, e="**1" * min(n, 1200))
+    s = tpl.format(c=chain, p="(" * depth, q=")" * depth, e="**1" * min(n, 1200), h="F" * rng.choice([100, 5000]), d="1" * rng.choice([50, 4500]),
+                   m=".b" * rng.choice([10, 3000]), u="-" * rng.choice([5, 3000]))
     return {"s": s, "long": True, **rand_cfg(rng)}
 
 
@@ -368,6 +371,8 @@ def gen_flags(rng: random.Random, tier: str) -> dict:
         case["extended"] = rng.choice(["ctor", "set"])
     if rng.random() < 0.3:  # the configured parser reaches the call as a copy
         case["clone"] = rng.choice(["deepcopy", "pickle", "copy"])
+    if rng.random() < 0.25:  # another parser was derived from this one (dataclasses.replace) with other flags, and used
+        case["sibling"] = rng.choice(FLAGSETS)
     return case
 
 
@@ -411,7 +416,7 @@ def judge_flags(case) -> Outcome:
     from formulaic.errors import FormulaParsingError
 
     out = Outcome()
-    out.sig = (case["uses"], tuple(case["flags"]), case["icpt"], len(case["s"]), repr(case.get("prev_flags")), case.get("clone"), case.get("extended"))
+    out.sig = (case["uses"], tuple(case["flags"]), case["icpt"], len(case["s"]), repr(case.get("prev_flags")), case.get("clone"), case.get("extended"), repr(case.get("sibling")))
     needs = {"twosided": ["TWOSIDED"], "multipart": ["MULTIPART"], "twosided+multipart": ["TWOSIDED", "MULTIPART"],
              "multistage": ["TWOSIDED", "MULTISTAGE"], "none": []}[case["uses"]]
     disabled = [f for f in needs if f not in case["flags"]]
@@ -430,6 +435,20 @@ def judge_flags(case) -> Outcome:
             else:
                 parser = DefaultFormulaParser(include_intercept=case["icpt"], operator_resolver=Extended())
                 parser.set_feature_flags(ff)
+        if case.get("sibling") is not None:
+            import dataclasses
+
+            from formulaic.parser import DefaultFormulaParser as _P
+
+            sff = _P.FeatureFlags.NONE
+            for nm in case["sibling"]:
+                sff |= getattr(_P.FeatureFlags, nm)
+            sib = dataclasses.replace(parser, feature_flags=sff)
+            for probe in ("a + b", "y ~ a | b"):
+                try:
+                    sib.get_terms(probe)
+                except FormulaParsingError:
+                    pass
         if case.get("clone"):
             import copy
             import pickle
